@@ -259,6 +259,22 @@ def _z3_decl_name_str(ctx, decl):
     return z3.Z3_get_symbol_string_bytes(ctx, decl_name)
 
 
+def _z3_string_from_code_points(value: str, context):
+    """A Z3 string constant with exactly the characters of `value`."""
+    chars = (ctypes.c_uint * len(value))(*[ord(c) for c in value])
+    return z3.SeqRef(z3.Z3_mk_u32string(context.ref(), len(value), chars), context)
+
+
+def _z3_string_to_code_points(ctx, ast) -> str:
+    """The characters of a Z3 string constant (as_string() returns an escaped rendering, e.g. \\u{0} for NUL)."""
+    if not z3.Z3_is_string(ctx, ast):
+        return z3.SeqRef(ast).as_string()
+    n = z3.Z3_get_string_length(ctx, ast)
+    buf = (ctypes.c_uint * n)()
+    z3.Z3_get_string_contents(ctx, ast, n, buf)
+    return "".join(chr(c) for c in buf)
+
+
 def z3_solver_sat(solver, extra_constraints, occasion):
     log.debug("Doing a check! (%s)", occasion)
 
@@ -497,7 +513,8 @@ class BackendZ3(Backend):
 
     @condom
     def StringV(self, ast):
-        return z3.StringVal(ast.args[0], ctx=self._context)
+        # z3.StringVal() interprets escape sequences such as \\u{41} in its argument: hand the characters over as code points
+        return _z3_string_from_code_points(ast.args[0], self._context)
 
     @condom
     def StringS(self, ast):
@@ -582,7 +599,7 @@ class BackendZ3(Backend):
         if op_name.startswith("RM_"):
             return RM(op_name)
         if op_name == "INTERNAL":
-            return claripy.StringV(z3.SeqRef(ast).as_string())
+            return claripy.StringV(_z3_string_to_code_points(ctx, ast))
         if op_name == "BitVecVal":
             bv_size = z3.Z3_get_bv_sort_size(ctx, z3_sort)
             if z3.Z3_get_numeral_uint64(ctx, ast, self._c_uint64_p):
@@ -739,7 +756,7 @@ class BackendZ3(Backend):
         if op_name == "INTERNAL":
             seq = z3.SeqRef(ast)
             if seq.is_string():
-                return seq.as_string()
+                return _z3_string_to_code_points(ctx, ast)
         raise BackendError("Unable to abstract Z3 object to primitive")
 
     def _abstract_bv_val(self, ctx, ast):
